@@ -54,6 +54,13 @@ var autoVariants = []autoVariant{
 	{"TouchedNs", "update", "autoUpdateTime:nano", kUnixNano},
 	{"UpdatedAt", "update", "", kPTime}, // *time.Time
 	{"CreatedAt", "create", "", kPTime},
+	// the conventional names with tracking switched off (documented: autoCreateTime:false / autoUpdateTime:false):
+	// ordinary columns (Auto == "")
+	{"UpdatedAt", "", "autoUpdateTime:false", kTime},
+	{"UpdatedAt", "", "autoUpdateTime:false", kInt},
+	{"UpdatedAt", "", "autoUpdateTime:false", kPTime},
+	{"CreatedAt", "", "autoCreateTime:false", kTime},
+	{"CreatedAt", "", "autoCreateTime:false", kInt},
 	{"BornAt", "create", "autoCreateTime", kTime},
 	{"BornMs", "create", "autoCreateTime:milli", kUnixMilli},
 }
@@ -85,7 +92,7 @@ func genModel(rt *rapid.T) *model {
 				v = autoVariant{Name: fmt.Sprintf("F%d", i), Kind: kInt}
 			}
 			f = field{Name: v.Name, Kind: v.Kind, Auto: v.Auto, AutoTag: v.Tag}
-			if v.Auto != "" {
+			if v.Auto != "" || v.Tag != "" {
 				f.Perm = rapid.SampledFrom(autoPermTags).Draw(rt, "autoperm")
 			}
 		} else {
@@ -1268,6 +1275,9 @@ func analyse(m *model, o *op, selForm string) caseInfo {
 			shape = "go-" + f.GoType
 		}
 		ci.classes["type:"+shape] = true
+		if f.Auto == "" && f.AutoTag != "" {
+			ci.classes["tracking-off:"+f.Name+":"+f.AutoTag+":"+f.Kind.String()] = true
+		}
 		if f.GoDefault != nil {
 			ci.classes["default:parsed-value"] = true
 		}
